@@ -38,6 +38,8 @@ type Schema struct {
 	// NoModel: the output is type-checked but not modelled (a request for the protoc-gen-go part alone has no
 	// fast-reflection code to analyse).
 	NoModel bool
+	// SomeNoFile: files to generate for which the plugin must produce nothing (proto2 files listed in the request).
+	SomeNoFile []string
 	// PbGo lists files of the request that the stock protoc-gen-go (built from the module cache) generates into the
 	// same workspace: proto2 neighbours of the generated files, whose Go code another generator provides in real use.
 	PbGo []string
